@@ -11,15 +11,15 @@ theorem InvE.pres_g2 {cfg : Cfg} {s s' : State} {l : Label} (hI : InvE cfg s)
     (hg : l.grp = 2) (h : step cfg s l = some s') : InvE cfg s' := by
   by_cases hex : s.rt = .exited
   · rw [exited_terminal l hex] at h; cases h
-  obtain ⟨h1, h2, h3, h4, h5, h6, h7, h8, h9, h10, h11, h12, h13, h14, h15, h16, h17, h18⟩ := hI
+  obtain ⟨h1, h2, h3, h4, h5, h6, h7, h8, h9, h10, h11, h12, h13, h14, h15, h16, h17, h18, h19⟩ := hI
   cases l <;> simp only [step] at h
   all_goals (first | (exfalso; simp [Label.grp] at hg; done) | skip)
   all_goals (repeat' (split at h))
   all_goals (first | (cases h; done) | skip)
   all_goals (cases h)
   all_goals (try simp only [coopStopped_iff, anyDaemonRunning_false_iff] at *)
-  all_goals (refine ⟨?_, ?_, ?_, ?_, ?_, ?_, ?_, ?_, ?_, ?_, ?_, ?_, ?_, ?_, ?_, ?_, ?_, ?_⟩)
-  all_goals (first | exact h1 | exact h2 | exact h3 | exact h4 | exact h5 | exact h6 | exact h7 | exact h8 | exact h9 | exact h10 | exact h11 | exact h12 | exact h13 | exact h14 | exact h15 | exact h16 | exact h17 | exact h18 | skip)
+  all_goals (refine ⟨?_, ?_, ?_, ?_, ?_, ?_, ?_, ?_, ?_, ?_, ?_, ?_, ?_, ?_, ?_, ?_, ?_, ?_, ?_⟩)
+  all_goals (first | exact h1 | exact h2 | exact h3 | exact h4 | exact h5 | exact h6 | exact h7 | exact h8 | exact h9 | exact h10 | exact h11 | exact h12 | exact h13 | exact h14 | exact h15 | exact h16 | exact h17 | exact h18 | exact h19 | skip)
   all_goals (try simp only [kind_orchestrator_iff, kind_killer_iff, kind_flagChecker_iff, kind_ultimate_iff,
     kind_startupCleanup_iff, kind_coreWatch_iff] at *)
   all_goals (try subst_vars)
